@@ -167,6 +167,12 @@ def run_property(prop, tier, replay=None):
         ncalls = sum(1 for b in F.bodies for _ in b.calls())
         analysed.append({'config': cfg, 'features': sorted(ctx.features), 'bodies': len(F.bodies), 'call_sites': ncalls, 'tree': th, 'applicable': True,
                          'normal_form': nf_used})
+    show = os.environ.get('VERIF_SHOW_SITE')
+    if show:
+        # development aid: every verdict recorded at sites whose name contains the given substring
+        for r in all_results:
+            if show in r.get('site', ''):
+                print('  [%s] %s %s -- %s' % (r['status'], r['site'], r['inst'], r.get('detail', '')[:400]))
     viols = [r for r in all_results if r['status'] == 'violation']
     # de-duplicate across configurations by key
     seen = {}
